@@ -52,7 +52,10 @@ int c_dateutils_add1month(int * date)
     }
     else
     {
-        /* change year */
+        /* change year (the last int year has no next year) */
+        if(date[0] == 2147483647)
+            return DATEUTILS_ERROR + __LINE__;
+
         date[1] = 1;
         date[0] += 1;
     }
@@ -83,6 +86,10 @@ int c_dateutils_add1day(int * date)
         return 0;
     }
     else if(date[2] == nbday) {
+        /* the last day of the last int year has no next day */
+        if(date[1] >= 12 && date[0] == 2147483647)
+            return DATEUTILS_ERROR + __LINE__;
+
         /* change month */
         date[2] = 1;
 
